@@ -31,6 +31,16 @@ def canon(p, wd=WD):
     return os.path.abspath(os.path.join(wd, p))      # a relative working directory is relative to the invoking one
 
 
+def leaves(v):
+    """the paths of a nested inputs/outputs value, whatever the grouping (C01/C03: only the set of paths matters)"""
+    from collections.abc import Mapping
+    if isinstance(v, str) or hasattr(v, "__fspath__"):
+        return [v]
+    if isinstance(v, Mapping):
+        return [p for x in v.values() for p in leaves(x)]
+    return [p for x in v for p in leaves(x)]
+
+
 def wd_of(spec):
     return spec[2] if len(spec) > 2 else WD
 
@@ -38,8 +48,8 @@ def wd_of(spec):
 def oracle(specs, existing):
     """specs: list of (inputs, outputs) raw path lists"""
     n = len(specs)
-    outs = [{canon(p, wd_of(sp)) for p in sp[1]} for sp in specs]
-    ins = [{canon(p, wd_of(sp)) for p in sp[0]} for sp in specs]
+    outs = [{canon(p, wd_of(sp)) for p in leaves(sp[1])} for sp in specs]
+    ins = [{canon(p, wd_of(sp)) for p in leaves(sp[0])} for sp in specs]
     multi = any(outs[a] & outs[b] for a in range(n) for b in range(n) if a != b)
     provided = set().union(*outs) if outs else set()
     missing = any(p not in provided and p not in existing for i in ins for p in i)
@@ -64,7 +74,8 @@ def check_one(specs, existing_files):
     from gwf.core import Graph, Target, FileProvidedByMultipleTargetsError, UnresolvedInputError, \
         CircularDependencyError
     existing = {canon(f) for f in existing_files}
-    targets = {f"t{i}": Target(name=f"t{i}", inputs=list(sp[0]), outputs=list(sp[1]), options={},
+    keep = lambda v: v if not isinstance(v, list) else list(v)
+    targets = {f"t{i}": Target(name=f"t{i}", inputs=keep(sp[0]), outputs=keep(sp[1]), options={},
                                working_dir=wd_of(sp))
                for i, sp in enumerate(specs)}
 
@@ -133,6 +144,10 @@ def structured():
     yield [([], ["../other/x"], WD + "/sub"), (["x"], ["../y"], WD + "/other")], []
     yield [([], ["."], WD + "/sub"), (["sub"], ["y"], WD)], []                     # the working directory itself
     yield [(["../x"], ["../y"], WD + "/sub"), (["y"], ["x"], WD)], []              # 2-cycle across directories
+    # container shapes: any Mapping / nested sequence groups the same paths (read-only mapping views, tuples)
+    from types import MappingProxyType as MP
+    yield [([], MP({"out": "x"})), (MP({"a": ["x"], "b": MP({"c": "./x"})}), ("y",))], []
+    yield [([], {"k": ("x", ["y"])}), (MP({"in": "d/../y"}), MP({"o": "z"}))], []
     # relative working directories (Target's default is "."): resolved against the invoking directory
     cwd = os.getcwd()
     yield [([], ["x"], "."), ([os.path.join(cwd, "x")], ["y"], WD)], []
